@@ -1033,6 +1033,16 @@ func (r *Run) admin(g *kit.Gor, op *Op) {
 
 type bodyPoison struct{ io.ReadCloser }
 
+// hdrValue decodes a scripted header value ("hex:..." carries bytes that JSON cannot).
+func hdrValue(v string) string {
+	if strings.HasPrefix(v, "hex:") {
+		if b, err := hex.DecodeString(v[4:]); err == nil {
+			return string(b)
+		}
+	}
+	return v
+}
+
 // reuseSlot: a request value a client keeps sending, and what it contained when the client built it.
 type reuseSlot struct {
 	req  *http.Request
@@ -1084,8 +1094,8 @@ func (r *Run) exchange(g *kit.Gor, ci, oi int, name string, op *Op) {
 				reused.snap.Header.Del(kv[0])
 			}
 			for _, kv := range op.Hdr {
-				req.Header.Add(kv[0], kv[1])
-				reused.snap.Header.Add(kv[0], kv[1])
+				req.Header.Add(kv[0], hdrValue(kv[1]))
+				reused.snap.Header.Add(kv[0], hdrValue(kv[1]))
 			}
 			reused.hdr = op.Hdr
 			r.probe("request-value-reused-changed")
@@ -1104,7 +1114,7 @@ func (r *Run) exchange(g *kit.Gor, ci, oi int, name string, op *Op) {
 	}
 	for _, kv := range op.Hdr {
 		if reused == nil {
-			req.Header.Add(kv[0], kv[1])
+			req.Header.Add(kv[0], hdrValue(kv[1]))
 		}
 	}
 	if op.Range && reused == nil {
